@@ -12,7 +12,7 @@ import z3
 from values import *
 import engine
 from engine import explore, model_bytes
-from props.common import Result, run_replay, hexs, unhex
+from props.common import guarded, Undecided, Result, run_replay, hexs, unhex
 from props.resp_common import *
 from props.c14 import dur_ns, lines_match, canon_tag
 from props.c20 import TAGS
@@ -216,11 +216,13 @@ def run_fields(P, res, payload):
         I._fields = [(list(k.encode()), w) for k, w, _ in fields]
         r = respond(I, P, entry, mk_frame(I._fields))
         return fields, r
-    for pr in explore(P, harness):
+    for pr in explore(P, guarded(harness)):
         res.paths += 1
         ctx = pr.ctx
         I = pr.interp
         rec = lambda: {'entry': entry, 'wire': hexs(wire_of(ctx.model(), I._fields))}
+        if isinstance(pr.value, Undecided):
+            res.undecided_path(pr, replay, rec); continue
         if pr.kind == 'panic':
             res.violations.append({'what': 'conversion panics: ' + pr.error.msg[:100], 'input': rec()}); continue
         fields, r = pr.value
@@ -421,11 +423,13 @@ def run_seq(P, res, payload):
         fields, exp = gen_seq(I, entry, n)
         I._fields = fields
         return exp, respond(I, P, entry, mk_frame(fields))
-    for pr in explore(P, harness):
+    for pr in explore(P, guarded(harness)):
         res.paths += 1
         ctx = pr.ctx
         I = pr.interp
         rec = lambda: {'entry': entry, 'wire': hexs(wire_of(ctx.model(), I._fields))}
+        if isinstance(pr.value, Undecided):
+            res.undecided_path(pr, replay, rec); continue
         if pr.kind == 'panic':
             res.violations.append({'what': 'conversion panics: ' + pr.error.msg[:100], 'input': rec()}); continue
         exp, r = pr.value
@@ -451,7 +455,7 @@ def run_instance(payload):
     else:
         run_fields(P, res, payload)
     res.wall_s = time.time() - t0
-    return res.to_dict()
+    return res.finish()
 
 # ---------------------------------------------------------------------------- native replay: text-level reference of the concrete reply
 def parse_wire(wire):
